@@ -4,6 +4,11 @@
 //! [`TranscriptGadget`](super::transcript_gadget) during a synthesis on this thread: the
 //! kind of every absorb / read / squeeze, in order. Nothing here changes the behaviour of
 //! unguarded code.
+//!
+//! A second thread-local log (`arith_log_*`) records the VALUES of the intermediate scalars the
+//! in-circuit verifier computes on the evaluations (instance evaluations, Lagrange values,
+//! identity values, `x^n`, `expected_h_eval`, the `x1`-combined evaluation sets, `f_eval`, `v`,
+//! the challenges) when a synthesis with known witnesses runs on this thread.
 
 use std::cell::RefCell;
 
@@ -40,6 +45,43 @@ pub(crate) fn transcript_log(e: TranscriptEvent) {
     LOG.with(|l| {
         if let Some(log) = l.borrow_mut().as_mut() {
             log.push(e);
+        }
+    });
+}
+
+thread_local! {
+    static ARITH: RefCell<Option<Vec<(String, Vec<Vec<u8>>)>>> = const { RefCell::new(None) };
+}
+
+/// Starts (or restarts) recording the intermediate scalars on this thread.
+pub fn arith_log_start() {
+    ARITH.with(|l| *l.borrow_mut() = Some(vec![]));
+}
+
+/// Stops recording and returns the entries since the start: a label and the little-endian
+/// canonical bytes of every value, in the order the verifier gadget computed them.
+pub fn arith_log_take() -> Vec<(String, Vec<Vec<u8>>)> {
+    ARITH.with(|l| l.borrow_mut().take()).unwrap_or_default()
+}
+
+/// Records the values of `cells` under `label` (nothing is recorded while the witnesses are
+/// unknown, e.g. during key generation).
+pub(crate) fn arith_log<F: ff::PrimeField>(
+    label: &str,
+    cells: &[midnight_proofs::circuit::AssignedCell<F, F>],
+) {
+    ARITH.with(|l| {
+        if let Some(log) = l.borrow_mut().as_mut() {
+            let mut out = Vec::with_capacity(cells.len());
+            for c in cells {
+                let mut got = None;
+                c.value().map(|v| got = Some(v.to_repr().as_ref().to_vec()));
+                match got {
+                    Some(b) => out.push(b),
+                    None => return,
+                }
+            }
+            log.push((label.to_string(), out));
         }
     });
 }
